@@ -59,14 +59,25 @@ def main():
                 continue
             fresh()
             ok_apply = True
-            for (f, old, new) in v["edits"]:
+            for ed in v["edits"]:
+                if ed[0] == "@revert":
+                    # reverse-apply one commit of /repo to the scratch copy (a recorded repair coming undone)
+                    d = subprocess.run(["git", "-C", "/repo", "diff", ed[1] + "^", ed[1], "--", "src"], stdout=subprocess.PIPE).stdout
+                    r = subprocess.run(["patch", "-R", "-p1", "-s", "-d", SCRATCH], input=d, stdout=subprocess.PIPE, stderr=subprocess.STDOUT)
+                    if r.returncode != 0:
+                        ok_apply = False
+                        print(f"!! {v['name']}: {ed[1]} does not reverse-apply")
+                        break
+                    continue
+                f, old, new = ed[:3]
+                every = len(ed) > 3 and ed[3] == "all"
                 p = os.path.join(SCRATCH, f)
                 s = open(p).read()
                 if s.count(old) < 1:
                     ok_apply = False
                     print(f"!! {v['name']}: pattern not found in {f}")
                     break
-                s = s.replace(old, new, 1)
+                s = s.replace(old, new) if every else s.replace(old, new, 1)
                 open(p, "w").write(s)
             if not ok_apply:
                 results.append((v["name"], "APPLY-FAILED", ""))
